@@ -74,9 +74,34 @@ impl<T> KanalPtr<T> {
     pub(crate) fn new_unchecked(addr: *mut T) -> Self {
         Self(UnsafeCell::new(MaybeUninit::new(addr)))
     }
+    /// Where the value lives: the pointer cell itself for `0 < size <= pointer`,
+    /// the pointee for larger `T`, nowhere for zero-sized `T`.
+    #[cfg(kanal_verif)]
+    pub(crate) fn verif_target(&self) -> (usize, usize) {
+        if size_of::<T>() == 0 {
+            (0, 0)
+        } else if size_of::<T>() > size_of::<*mut T>() {
+            (unsafe { (*self.0.get()).assume_init() } as usize, size_of::<T>())
+        } else {
+            (self.0.get() as usize, size_of::<*mut T>())
+        }
+    }
+    #[cfg(kanal_verif)]
+    fn verif_access(&self, write: bool, site: &'static str) {
+        let (a, _) = self.verif_target();
+        if a != 0 {
+            if write {
+                crate::verif::rt::mem_write(a, site);
+            } else {
+                crate::verif::rt::mem_read(a, site);
+            }
+        }
+    }
     /// Reads data based on movement protocol of KanalPtr based on size of T
     #[inline(always)]
     pub(crate) unsafe fn read(&self) -> T {
+        #[cfg(kanal_verif)]
+        self.verif_access(false, "KanalPtr::read");
         if size_of::<T>() == 0 {
             zeroed()
         } else if size_of::<T>() > size_of::<*mut T>() {
@@ -88,6 +113,8 @@ impl<T> KanalPtr<T> {
     /// Writes data based on movement protocol of KanalPtr based on size of T
     #[inline(always)]
     pub(crate) unsafe fn write(&self, d: T) {
+        #[cfg(kanal_verif)]
+        self.verif_access(true, "KanalPtr::write");
         if size_of::<T>() > size_of::<*mut T>() {
             ptr::write((*self.0.get()).assume_init(), d);
         } else {
@@ -101,6 +128,8 @@ impl<T> KanalPtr<T> {
     #[inline(always)]
     #[allow(unused)]
     pub(crate) unsafe fn copy(&self, d: *const T) {
+        #[cfg(kanal_verif)]
+        self.verif_access(true, "KanalPtr::copy");
         if size_of::<T>() > size_of::<*mut T>() {
             // Data can't be stored as pointer value, move it to pointer
             // location
